@@ -255,6 +255,125 @@ pub fn scenarios(ctx: &Ctx, rng: &mut Rng) -> Vec<Scenario> {
                     }),
                 });
             }
+            // ---- lookup SEQUENCES that go on after a failure (same id retried, run-length neighbour,
+            // deduplicated twin): once the stream fails, a later lookup may fail too, but if it reports
+            // success the bytes must be the tile's bytes
+            if lname == "small" {
+                let mut dl = small_logical(rng, codec);
+                dl.tiles.clear();
+                let (ca, cb, cc) = (Rc::new(rng.bytes(40)), Rc::new(rng.bytes(40)), Rc::new(rng.bytes(17)));
+                for (id, c) in [(0u64, &ca), (1, &ca), (2, &cb), (5, &ca), (9, &cc), (10, &cc)] {
+                    dl.tiles.insert(id, c.clone());
+                }
+                let dbytes = Rc::new(write_sync(dl.build()).expect("fault-free write"));
+                let truth: Rc<BTreeMap<u64, Vec<u8>>> = Rc::new(dl.tiles.iter().map(|(k, v)| (*k, v.as_ref().clone())).collect());
+                let seq: [u64; 11] = [0, 1, 2, 1, 0, 5, 9, 10, 9, 77, 0];
+                for asyncm in [false, true] {
+                    let b = dbytes.clone();
+                    let t = truth.clone();
+                    let open_ops = {
+                        let mut s = Inst::new(b.as_ref().clone());
+                        let _ = PMTiles::from_reader(&mut s).map(|pm| pm.num_tiles());
+                        s.c.nops
+                    };
+                    let open_ops_async = {
+                        let mut s = AInst::new(b.as_ref().clone());
+                        let _ = block_on(PMTiles::from_async_reader(&mut s)).map(|pm| pm.num_tiles());
+                        s.c.nops
+                    };
+                    v.push(Scenario {
+                        name: format!("PMTiles::{}/{cn}/retry-sequence", if asyncm { "get_tile_by_id_async" } else { "get_tile_by_id" }),
+                        writer: false,
+                        run: Box::new(move |k| {
+                            // judge every call on its own: Ok(Some(wrong bytes)) / Ok(None) for a present id = success
+                            // reported for a tile that was not transferred
+                            let judge = |results: Vec<std::io::Result<Option<Vec<u8>>>>| -> std::io::Result<u64> {
+                                let mut failed = false;
+                                for (id, r) in seq.iter().zip(results.iter()) {
+                                    match r {
+                                        Ok(got) => {
+                                            if got.as_ref() != t.get(id) {
+                                                return Ok(0xBAD0_0000 + *id); // differs from the fault-free value
+                                            }
+                                        }
+                                        Err(_) => failed = true,
+                                    }
+                                }
+                                if failed {
+                                    Err(std::io::Error::new(std::io::ErrorKind::Other, "some lookups failed"))
+                                } else {
+                                    Ok(0x600D)
+                                }
+                            };
+                            if asyncm {
+                                let mut s = AInst::new(b.as_ref().clone());
+                                aset(&mut s, k.map(|k| k + open_ops_async), true);
+                                let r = guard(|| {
+                                    block_on(async {
+                                        let mut pm = PMTiles::from_async_reader(&mut s).await?;
+                                        let mut res = Vec::new();
+                                        for id in seq {
+                                            res.push(pm.get_tile_by_id_async(id).await);
+                                        }
+                                        judge(res)
+                                    })
+                                });
+                                let mut o = finish_async(r, |v| *v, &s, false);
+                                o.nops = o.nops.saturating_sub(open_ops_async);
+                                o
+                            } else {
+                                let mut s = Inst::new(b.as_ref().clone());
+                                s.c.fail_from = k.map(|k| k + open_ops);
+                                let r = guard(|| {
+                                    let mut pm = PMTiles::from_reader(&mut s)?;
+                                    let mut res = Vec::new();
+                                    for id in seq {
+                                        res.push(pm.get_tile_by_id(id));
+                                    }
+                                    judge(res)
+                                });
+                                let mut o = finish_sync(r, |v| *v, &s, false);
+                                o.nops = o.nops.saturating_sub(open_ops);
+                                o
+                            }
+                        }),
+                    });
+                }
+            }
+            // ---- the archive writer behind a buffering stream (std / futures BufWriter): a failure of the
+            // underlying stream reaches the library only at a flush or seek, possibly its very last operation
+            for asyncm in [false, true] {
+                let l2 = l.clone();
+                let cap = if lname == "small" { 64usize } else { 8192 };
+                v.push(Scenario {
+                    name: format!("PMTiles::{}/{cn}/{lname}/buffered", if asyncm { "to_async_writer" } else { "to_writer" }),
+                    writer: true,
+                    run: Box::new(move |k| {
+                        if asyncm {
+                            let mut s = AInst::new(Vec::new());
+                            aset(&mut s, k, false);
+                            let pm = l2.build_async();
+                            let r = {
+                                let mut bw = futures::io::BufWriter::with_capacity(cap, &mut s);
+                                guard(|| block_on(pm.to_async_writer(&mut bw)))
+                            };
+                            finish_async(r, |()| 1, &s, true)
+                        } else {
+                            let mut s = Inst::new(Vec::new());
+                            s.c.fail_from = k;
+                            let pm = l2.build();
+                            let r = {
+                                let mut bw = std::io::BufWriter::with_capacity(cap, &mut s);
+                                let r = guard(|| pm.to_writer(&mut bw));
+                                // hand the stream back without flushing: what the library left unwritten stays unwritten
+                                let _ = bw.into_parts();
+                                r
+                            };
+                            finish_sync(r, |()| 1, &s, true)
+                        }
+                    }),
+                });
+            }
             // ---- util::read_directories
             for asyncm in [false, true] {
                 let b = bytes.clone();
